@@ -76,8 +76,8 @@ class C12(Prop):
 
     def plan(self, tier):
         if tier == "quick":
-            return {"units": 6000, "budget_s": 75, "block": 100}
-        return {"units": 250000, "budget_s": 1500, "block": 200}
+            return {"units": 40000, "budget_s": 90, "block": 200}
+        return {"units": 1200000, "budget_s": 1500, "block": 400}
 
     def gen(self, rng, idx, tier):
         nn = rng.randint(1, 5)
